@@ -155,9 +155,19 @@ func lbvcReadImage(l *commitLog) (offs []int64, vals []string, err error) {
 		return nil, nil, err
 	}
 	hb := make([]byte, 28)
+	last := oldest - 1
 	for i := 0; i < 1000; i++ {
-		ctx, cancel := context.WithTimeout(context.Background(), 30*time.Millisecond)
+		// up to the newest offset every read finds a message (long time-out: a loaded machine must not look like a lost
+		// message); beyond it the read is a probe for a phantom message and is cut short
+		wait := 30 * time.Millisecond
+		if last < newest {
+			wait = 10 * time.Second
+		}
+		ctx, cancel := context.WithTimeout(context.Background(), wait)
 		m, off, _, _, err := r.ReadMessage(ctx, hb)
+		if err == nil {
+			last = off
+		}
 		cancel()
 		if err != nil {
 			break
@@ -187,7 +197,7 @@ func lbvcReadEpochs(l *commitLog) map[int64]uint64 {
 	}
 	hb := make([]byte, 28)
 	for i := 0; i < 1000; i++ {
-		ctx, cancel := context.WithTimeout(context.Background(), 30*time.Millisecond)
+		ctx, cancel := context.WithTimeout(context.Background(), 10*time.Second)
 		_, off, _, ep, err := r.ReadMessage(ctx, hb)
 		cancel()
 		if err != nil {
@@ -308,7 +318,7 @@ func lbvcCheckImage(img *lbvcCrashImage, opts Options) (bad string) {
 			return fmt.Sprintf("%s: a reader started at offset %d of the reopened log fails: %v (log reads %v)", where, o, err, offs2)
 		}
 		hb := make([]byte, 28)
-		ctx, cancel := context.WithTimeout(context.Background(), 100*time.Millisecond)
+		ctx, cancel := context.WithTimeout(context.Background(), 10*time.Second)
 		_, got, _, _, err := r.ReadMessage(ctx, hb)
 		cancel()
 		if err != nil || got != o {
